@@ -70,6 +70,8 @@ class SimEngine:
         self._gen.manual_seed(int(seed))
 
     def __call__(self, *size, dtype=None, device=None):
+        if dtype is None:
+            dtype = torch.get_default_dtype()  # the documented engine contract: None means the global default
         if self.mode == "zeros":
             out = torch.zeros(*size, dtype=dtype, device=device)
         elif self.mode == "tape":
